@@ -19,7 +19,17 @@ ASSUMPTIONS = [
 
 
 def design_mc(ctx):
-    return PP.design_mc_pipeline(ctx)
+    import os
+    from .. import tlc
+    out = PP.design_mc_pipeline(ctx)
+    for withreads in (["FALSE"] if ctx.quick else ["FALSE", "TRUE"]):
+        cfg = tlc.write_cfg(os.path.join(ctx.workdir, f"ped{withreads}.cfg"), spec="Spec", consts={"NSites": 2, "WithReads": withreads},
+                            invariants=["PaternalMaternal", "TransmissionConsistent", "ConflictOrMissingUnphased", "GeneticHaplotyping",
+                                        "GenotypeKept"])
+        r = tlc.model_check("PedPipeline", cfg=cfg, timeout=3000)
+        r["what"] = f"PedPipeline (trio, all genotype combinations over 2 sites, reads={withreads}): the C05 sentences follow from the PedMEC solver contract and the IBD labelling"
+        out.append(r)
+    return out
 
 
 GTS = ["0/0", "0/1", "1/1", "./."]
